@@ -28,7 +28,7 @@ EXHAUSTIVE_SUBSPACES = 'the enumerated spaces of C01 with instrumented class-bas
 EXHAUSTIVE = {"quick": False, "thorough": False}
 
 N_RANDOM = {"quick": 150000, "thorough": 6000000}
-FLAVS = ["async_class", "async_class", "async_gen", "sync_iter", "sync_gen", "getitem_seq", "async_class_bare"]
+FLAVS = ["async_class", "async_class", "async_gen", "sync_iter", "sync_gen", "getitem_seq", "async_class_bare", "async_iterable", "sync_iterable"]
 FNFL = ["def", "async_def", "callobj"]
 
 
